@@ -254,3 +254,60 @@ func VC_C07_single_method() {
 	verifAssert(vSvcOne == nil, "C07.single.reset-restores")
 	verifReached("C07.single")
 }
+
+var vRoundN = [3]string{"round0", "round1", "round2"}
+
+// VC_C07_history: up to three apply/undo rounds on one variable, each applying either
+// through a per-method handle obtained before the first round or through a fresh
+// Interface(&v).Method(...) chain, and undoing through Builder.Reset or (for the retained
+// handle) its own Cancel: after every apply the slot reaches the replacement, after
+// every undo the variable holds exactly what it held before the first mock.
+func VC_C07_history() {
+	vEnv()
+	stub.VerifResetMmap()
+	impl := &vImpl{n: 9}
+	prevNil := verifBool("prev.nil")
+	if prevNil {
+		vSvcA = nil
+	} else {
+		vSvcA = impl
+	}
+	t := reflect.TypeOf(&vSvcA).Elem()
+	j := vSlotOf(t, "Gamma")
+	b := Create()
+	h := b.Interface(&vSvcA).Method("Gamma")
+	x := verifInt("x")
+	rounds := 1 + verifChoice("rounds", 3)
+	for r := 0; r < rounds; r++ {
+		fresh := verifBool(vRoundN[r] + ".fresh")
+		if fresh {
+			b.Interface(&vSvcA).Method("Gamma").Apply(vCbGamma)
+		} else {
+			h.Apply(vCbGamma)
+		}
+		cur, isImpl := vSvcA.(*vImpl)
+		verifAssert(vSvcA != nil && !(isImpl && cur == impl), "C07.history.mocked-after-apply")
+		if vSvcA == nil || isImpl {
+			return
+		}
+		f, recv, notImpl := vDispatch(unsafe.Pointer(&vSvcA), j, "C07.history")
+		verifAssert(!notImpl && f != nil, "C07.history.mocked-slot-has-stub")
+		if notImpl || f == nil {
+			return
+		}
+		got, p := vCall07(f, recv, x)
+		verifAssert(!p && got == x+3, "C07.history.replacement-reached")
+		if !fresh && verifBool(vRoundN[r]+".cancel") {
+			h.Cancel()
+		} else {
+			b.Reset()
+		}
+		if prevNil {
+			verifAssert(vSvcA == nil, "C07.history.undo-restores-nil")
+		} else {
+			back, ok := vSvcA.(*vImpl)
+			verifAssert(ok && back == impl, "C07.history.undo-restores-previous-implementation")
+		}
+	}
+	verifReached("C07.history")
+}
